@@ -4,7 +4,8 @@ use vharness::render_common::*;
 use vharness::util::*;
 
 pub fn run(t: &[&str]) -> String {
-    run_default(t)
+    let toks: Vec<&str> = t.iter().copied().filter(|x| !x.starts_with("needle=")).collect();
+    run_default(&toks)
 }
 
 /// A view-space coordinate in an adversarial mode.
@@ -100,6 +101,51 @@ pub fn gen(rng: &mut Rng, tier: Tier, out: &mut Vec<String>) {
     }
 }
 
+/// Thin triangles whose bottom (or top) vertex sits a hair below (above) a pixel centre: with f32
+/// edge stepping the two edges can cross by an ulp around that centre, so that the span's end falls
+/// before its start (measured: about 3 in 1000 such triangles). Rendered through an identity
+/// orthographic box and the full-buffer viewport; only the impl-only oracle judges them.
+pub fn gen_needles(rng: &mut Rng, n: usize, out: &mut Vec<String>) {
+    let one = h32(1.0);
+    let m1 = h32(-1.0);
+    for i in 0..n {
+        let k = 1.0 + rng.below(14) as f32;
+        let j = 4.0 + rng.below(11) as f32;
+        let bx = k + 0.5 + *rng.pick(&[0.0f32, 1e-6, -1e-6]);
+        let by = j + 0.5 + *rng.pick(&[1e-5f32, 1e-4, 1e-3, 3e-3]);
+        let tx = rng.f32_in(0.0, 15.0);
+        let ty = rng.f32_in(0.0, j - 2.0);
+        let sep = *rng.pick(&[1e-2f32, 0.05, 0.1, 0.3]);
+        let t = rng.f32_in(0.2, 0.8);
+        let mx = tx + (bx - tx) * t + rng.f32_in(-sep, sep);
+        let my = ty + (by - ty) * t;
+        let mut pts = [(tx, ty), (mx, my), (bx, by)];
+        if i % 2 == 1 {
+            // mirrored: the needle points upwards
+            for p in pts.iter_mut() {
+                p.1 = 16.0 - p.1;
+            }
+        }
+        let rot = rng.below(3) as usize;
+        pts.rotate_left(rot);
+        let test = *rng.pick(&['n', 'l']);
+        let mut line = format!(
+            "scene door=r tgt=fb dims=16x16 vp=0,0,16,16 cull=n sort=n test={test} cw=1 dw=1 sh=0 proj=ortho,{m1},{m1},{m1},{one},{one},{one} zinit={} k=1 sel=0 v 3",
+            h32(-1.0)
+        );
+        for (x, y) in pts {
+            line += &format!(" {} {} {} {} {}", h32(x / 8.0 - 1.0), h32(y / 8.0 - 1.0), h32(0.0), one, h32(1.0));
+        }
+        line += " t 1 0 1 2 needle=1";
+        out.push(line);
+    }
+}
+
 fn main() {
-    vharness::harness_main(gen, run);
+    vharness::harness_main(gen_all, run);
+}
+
+pub fn gen_all(rng: &mut Rng, tier: Tier, out: &mut Vec<String>) {
+    gen(rng, tier, out);
+    gen_needles(rng, if tier == Tier::Quick { 4000 } else { 100_000 }, out);
 }
